@@ -79,6 +79,9 @@ TOL_MM = 1e-15
 # the fast runner rounds individual terms of long sums to multiples of 2^-400 (Base/Field.v, fapx): model values
 # are meaningful down to ~1e-115 only; un-normalised blocks of primitive-normalised functions have natural scale 1
 FLOOR_MODEL = 1e-100
+# un-normalised blocks whose terms are all below ~1e-290 live in the subnormal range of double precision (far-apart
+# tight shells: absolute error 2^-1074, no relative accuracy at all): nothing below this magnitude is compared
+BLOCK_FLOOR = 1e-280
 
 BLOCK_CLASSES = ["overlap", "kinetic", "moment", "momentum", "angmom", "pointcharge", "eval", "evalderiv", "eri"]
 
@@ -578,9 +581,9 @@ def eval_block_case(model, case):
         ab = [copy_shell(x, coeffs=[[abs(c) for c in row] for row in x.coeffs]) for x in shells]
         st, b = blk(ab)
         if st != "ok":
-            return 1e-300
+            return BLOCK_FLOOR
         b = np.asarray(b)
-        return float(np.max(np.abs(b))) if b.size and np.all(np.isfinite(b)) else 1e-300
+        return max(BLOCK_FLOOR, float(np.max(np.abs(b)))) if b.size and np.all(np.isfinite(b)) else BLOCK_FLOOR
 
     tolb = _tol_of(cls)
     st0, b0 = blk(xs)
@@ -629,12 +632,12 @@ def eval_block_case(model, case):
             if st1 != "ok":
                 return {"detail": {"kind": "rejected-one-side", "module": cls, "impl": b1}, "tag": tag, "stats": stats}
             ref = np.take(b0, [ma], axis=ax)
-            d = close(ref, np.asarray(b1), tolb, 1e-300, "%s block column %d of shell %d" % (cls, ma, pos))
+            d = close(ref, np.asarray(b1), tolb, BLOCK_FLOOR, "%s block column %d of shell %d" % (cls, ma, pos))
             if d:
                 d["module"] = cls
                 return {"detail": d, "tag": tag, "stats": stats}
             # norm_cont of the single-column shell = row ma of the generalized shell's
-            d = close(s.to_gbasis().norm_cont[ma:ma + 1], col.to_gbasis().norm_cont, TOL, 1e-300, "norm_cont row %d" % ma)
+            d = close(s.to_gbasis().norm_cont[ma:ma + 1], col.to_gbasis().norm_cont, TOL, BLOCK_FLOOR, "norm_cont row %d" % ma)
             if d:
                 d["module"] = "norm_cont"
                 return {"detail": d, "tag": tag, "stats": stats}
@@ -651,7 +654,7 @@ def eval_block_case(model, case):
             return {"detail": {"kind": "rejected-one-side", "module": cls, "impl": b1}, "tag": tag, "stats": stats}
         d = close(b0, np.asarray(b1), tolb, term_scale(with_shell(new)), "%s block %s of shell %d" % (cls, t, pos))
         if d is None:
-            d = close(s.to_gbasis().norm_cont, new.to_gbasis().norm_cont, TOL, 1e-300, "norm_cont")
+            d = close(s.to_gbasis().norm_cont, new.to_gbasis().norm_cont, TOL, BLOCK_FLOOR, "norm_cont")
             if d:
                 d["module"] = "norm_cont"
         elif d:
@@ -674,7 +677,7 @@ def eval_block_case(model, case):
         d = None
         ts = term_scale(xs)
         for j in range(m):     # column by column: the scaled column has another magnitude
-            d = close(np.take(exp, [j], axis=ax), np.take(np.asarray(b1), [j], axis=ax), tolb, abs(fac[j]) * ts,
+            d = close(np.take(exp, [j], axis=ax), np.take(np.asarray(b1), [j], axis=ax), tolb, max(BLOCK_FLOOR, abs(fac[j]) * ts),
                       "%s block column %d (factor %s on column %d)" % (cls, j, kk, rw["col"]))
             if d:
                 d["module"] = cls
@@ -682,7 +685,7 @@ def eval_block_case(model, case):
         if d is None:
             n0, n1 = s.to_gbasis().norm_cont, new.to_gbasis().norm_cont
             for j in range(m):
-                d = close(n0[j] / (abs(float(kk)) if j == rw["col"] else 1.0), n1[j], TOL, 1e-300,
+                d = close(n0[j] / (abs(float(kk)) if j == rw["col"] else 1.0), n1[j], TOL, BLOCK_FLOOR,
                           "norm_cont row %d after factor %s on column %d" % (j, kk, rw["col"]))
                 if d:
                     d["module"] = "norm_cont"
@@ -709,7 +712,7 @@ def eval_block_case(model, case):
         scale = max(term_scale(xs), term_scale(with_shell(s2)))
         d = close(b0 + b2, b3, tolb, scale, "%s block additivity in the coefficients of shell %d" % (cls, pos))
         if d is None:
-            d = close(float(kk) * b0, b4, tolb, abs(float(kk)) * term_scale(xs), "%s block homogeneity (k = %s) in the coefficients of shell %d"
+            d = close(float(kk) * b0, b4, tolb, max(BLOCK_FLOOR, abs(float(kk)) * term_scale(xs)), "%s block homogeneity (k = %s) in the coefficients of shell %d"
                       % (cls, kk, pos))
         if d:
             d["module"] = cls
